@@ -22,6 +22,8 @@ def run_one(sid):
             props = [meta["breaks_property"]] + EXTRA.get(sid, [])
             out = {}
             for p in props:
+                if any(v.get("exit") == 1 for t in out.values() for v in t.values()):
+                    break          # already caught by an earlier (the target) property
                 for tier in ("quick", "thorough"):
                     r = subprocess.run(["/verif/check", p, "--tier", tier, "--no-evidence"], env=dict(os.environ, VERIF_REPO=tmp), capture_output=True, text=True)
                     keys = [l.split()[1].rstrip(":") for l in r.stdout.splitlines() if l.startswith("violation ")]
